@@ -93,6 +93,36 @@ def correspond(ctx):
                 ctx.violation('c20:export-alias-inplace', 'after in-place %s %r (%s) an exported memoryview no longer shows the contents of the matrix' % (opname, operand, res),
                               dict(case, op=opname, operand=repr(operand)))
             view.release()
+        # sequences of export, mutation (writes, in-place reshape through .size) and release: EVERY export - also one taken while older views are
+        # still held - reproduces the matrix as it is at that moment (shape, strides, format, item size, values); older views keep their geometry
+        if m * k:
+            E = matrix(A); held = []
+            for step in range(rng.randint(3, 7)):
+                act = rng.choice(['export', 'export', 'resize', 'write', 'release'])
+                if act == 'resize':
+                    tot = E.size[0] * E.size[1]
+                    divs = [d for d in range(1, tot + 1) if tot % d == 0]
+                    d0 = rng.choice(divs); E.size = (d0, tot // d0)
+                elif act == 'write':
+                    E[rng.randrange(len(E))] = val(tc)
+                elif act == 'release' and held:
+                    held.pop(rng.randrange(len(held)))[0].release()
+                elif act == 'export':
+                    v = memoryview(E); evals += 1
+                    r0, c0 = E.size
+                    isz = {'i': 8, 'd': 8, 'z': 16}[tc]
+                    want = (v.shape == (r0, c0) and v.strides == (isz, isz * r0) and v.itemsize == isz and v.ndim == 2 and v.nbytes == isz * r0 * c0)
+                    if want and tc != 'z': want = [v[i % r0, i // r0] for i in range(r0 * c0)] == list(E)
+                    if want and matrix(v).size != E.size: want = False
+                    if not want:
+                        ctx.violation('c20:export-geometry', 'a memoryview taken while %d older view(s) are held does not reproduce the matrix: size %s, view shape %s strides %s'
+                                      % (len(held), E.size, v.shape, v.strides), dict(case, held=len(held), step=step))
+                        v.release(); break
+                    held.append((v, (r0, c0)))
+                for hv, shp in held:
+                    if hv.shape != shp:
+                        ctx.violation('c20:export-geometry', 'an older memoryview changed its shape from %s to %s after the matrix was resized' % (shp, hv.shape), dict(case, step=step)); break
+            for hv, _ in held: hv.release()
         distinct.add(('dense', tc, m, k))
         # buffer import: contiguous multi-dimensional casts and strided one-dimensional slices
         if rng.random() < 0.6:
